@@ -11,6 +11,7 @@
 package c15
 
 import (
+	"context"
 	"fmt"
 	"io"
 	"net"
@@ -41,7 +42,7 @@ func init() {
 	reg.Register(runner.Check{
 		ID:    "C15",
 		Level: "model_checking",
-		Rule: "stateless exploration (<=Ds scheduling deviations per scenario; a deviation is a switch to another goroutine at a synchronisation point or, in the two-session and write-then-close scenarios and in every schedule scenario of the thorough tier, a goroutine held up for 20 ms / 2 s before an atomic write) of close/stop scenarios on the real client and server, TCP and UDP: blocked reader at each end (one or two sessions on the client; the second session must keep working) x closer {client conn, server conn, both, client Stop, server Stop, network loss then Close} x idle period before the close {0, 3 s, 7 s, 70 s}; blocked writer under back-pressure x closer; 24 idle proxy connections of one client then Stop at either end; repeated Close; write then Close without any Read (0-RTT client, and server); UDP one-way black hole until the sender's retransmission limit; deadline scripts (deadline then several Reads / Writes, deadline moved, cleared, in the past) at both ends; " +
+		Rule: "stateless exploration (<=Ds scheduling deviations per scenario; a deviation is a switch to another goroutine at a synchronisation point or, in the two-session and write-then-close scenarios and in every schedule scenario of the thorough tier, a goroutine held up for 20 ms / 2 s before an atomic write) of close/stop scenarios on the real client and server, TCP and UDP: blocked reader at each end (one or two sessions on the client; the second session must keep working) x closer {client conn, server conn, both, client Stop, server Stop, network loss then Close} x idle period before the close {0, 3 s, 7 s, 70 s}; blocked writer under back-pressure x closer; 24 idle proxy connections of one client then Stop at either end; client Stop while a dial is in flight (the connection takes 50 ms to establish; Stop 10 / 49 / 51 / 60 ms after the dial began); repeated Close; write then Close without any Read (0-RTT client, and server); UDP one-way black hole until the sender's retransmission limit; deadline scripts (deadline then several Reads / Writes, deadline moved, cleared, in the past) at both ends; " +
 			"oracles: every call returns; a call blocked when the closer acted returns within 20 s of it; Close/Stop return within 20 s; a Read/Write that cannot complete returns a timeout no later than 1 s after the deadline in force; 30 s after both ends were shut down no goroutine started by mieru is alive. evaluations = executions",
 		Assumptions: []string{
 			"'promptly (seconds, not the idle-read timeout)' is judged as <= 20 s of virtual time; the idle-read timeouts are 60-120 s",
@@ -267,6 +268,9 @@ func run1(p params, ctl *explore.Ctl) explore.Result {
 	if p.Kind == "one-way-blackhole" {
 		cfg.Horizon = 400 * time.Second
 	}
+	if p.Kind == "stop-during-dial" {
+		cfg.DialDelay = 50 * time.Millisecond
+	}
 	if p.Ds > 0 && p.Stalls {
 		cfg.Stalls = []time.Duration{20 * time.Millisecond, 2 * time.Second}
 	}
@@ -292,6 +296,32 @@ func run1(p params, ctl *explore.Ctl) explore.Result {
 	r.arm = func(b bool) { armed = b }
 	ex := world.Run(cfg, ctl, func(w *world.World) {
 		r.w = w
+		if p.Kind == "stop-during-dial" {
+			// a dial is in flight (establishing the connection takes 50 ms) when the client is stopped
+			// (10 / 49 / 51 ms after the dial began); whatever the dial returns is closed
+			armed = true
+			var g world.Group
+			var conn net.Conn
+			r.bg(&g, "DialContext(client, slow)", "client", func(c *call) { c.within = prompt }, func() (int, error) {
+				ctx, cancel := context.WithTimeout(context.Background(), 30*time.Second)
+				defer cancel()
+				c, err := w.Cli.DialContext(ctx, &net.TCPAddr{IP: net.IPv4(93, 184, 216, 34), Port: 1000})
+				conn = c
+				return 0, err
+			})
+			vsched.Sleep(p.Idle)
+			r.do("Stop(client, during the dial)", func() (int, error) { return 0, w.Cli.Stop() }).within = prompt
+			g.Wait()
+			if conn != nil {
+				r.do("Close(conn returned by the dial)", func() (int, error) { return 0, conn.Close() }).within = prompt
+			}
+			r.do("Stop(server, final)", func() (int, error) { return 0, w.Srv.Stop() }).within = prompt
+			shutdownDone = true
+			armed = false
+			vsched.Sleep(grace)
+			leaked = census(w.S)
+			return
+		}
 		if p.Kind == "write-then-close" {
 			armed = true
 			writeThenClose(r, p)
@@ -785,6 +815,9 @@ func units(tier string) []runner.Unit {
 			if !udp || tier == "thorough" {
 				add(params{UDP: udp, Kind: "two-sessions", Closer: cl, Ds: 1, Stalls: true}, 20)
 			}
+		}
+		for _, idle := range []time.Duration{10 * time.Millisecond, 49 * time.Millisecond, 51 * time.Millisecond, 60 * time.Millisecond} {
+			add(params{UDP: udp, Kind: "stop-during-dial", Closer: "client-stop", Idle: idle}, 1)
 		}
 		for _, cl := range []string{"client-stop", "server-stop"} {
 			add(params{UDP: udp, Kind: "many-sessions", Closer: cl}, 3)
